@@ -298,6 +298,36 @@ def r18_cmp_minmax(sig, body):
     return sig, body, n
 
 
+def r31_loop_break_to_while(sig, body):
+    """R31: `loop { if !C { break; } REST }` -> `while C { REST }` (the definition of `while`; applied to every extracted body)"""
+    n = 0
+    guard = 0
+    while guard < 50:
+        guard += 1
+        hit = None
+        for kind, kw, ob, cb in rsx.find_loops(body):
+            if kind != 'loop':
+                continue
+            inner = body[ob + 1:cb]
+            m = re.match(r'(\s*)if\s+!\s*(.+?)\s*\{\s*break\s*;\s*\}', inner, re.S)
+            if not m or '{' in m.group(2):
+                continue
+            cond = m.group(2).strip()
+            if cond.startswith('(') and _match_paren(cond, 0) == len(cond) - 1:
+                cond = cond[1:-1].strip()
+            elif not re.fullmatch(r'[\w.:]+(\(.*\))?', cond, re.S):
+                # `!a && b` would negate only `a`: only a single call / path / parenthesised expression is safe
+                continue
+            hit = (kw, ob, cb, cond, inner[m.end():])
+            break
+        if not hit:
+            break
+        kw, ob, cb, cond, rest = hit
+        body = body[:kw] + 'while %s {%s}' % (cond, rest) + body[cb + 1:]
+        n += 1
+    return sig, body, n
+
+
 def r30_method_minmax(sig, body):
     """R30: `X.min(Y)` / `X.max(Y)` (integers) -> `verif_min(X, Y)` / `verif_max(X, Y)` (std Ord::min/max by contract)"""
     n = 0
@@ -806,6 +836,7 @@ RULES = {
     'R28': r28_str_literals,
     'R29': r29_str_compare,
     'R30': r30_method_minmax,
+    'R31': r31_loop_break_to_while,
 }
 
 DESCRIPTIONS = {k: (v.__doc__ or '').strip() for k, v in RULES.items()}
